@@ -239,7 +239,7 @@ func c29Run(ops []c29Op) (V, Verdict) {
 			obs = append(obs, c29EncPkt(p.Header.SSRC, p.Header.PayloadType, p.Header.PaddingSize, int(p.PaddingSize),
 				c29Rest(&p.Header), p.Payload)...)
 			// ---- direct oracle ----
-			if (werr != nil) != (nerr > 0) {
+			if !ambiguous && (werr != nil) != (nerr > 0) {
 				fail("static-write-error", fmt.Sprintf("op %d: WriteRTP returned %v with %d failing bound writers", k, werr, nerr))
 			}
 			// caller's packet: deep equal to the copy taken before, and the very same slices
@@ -458,6 +458,10 @@ func init() {
 				{{K: 1, ID: 0, SSRC: 5, Codec: -1, W: 0}, {K: 3, P: plain}, {K: 2, ID: 0}},
 				// a failing writer does not stop the fan-out
 				{{K: 1, ID: 0, SSRC: 5, Codec: 96, W: 0, Fail: true}, bind(1, 6, 97, 1), {K: 3, P: plain}},
+				// one id bound twice with different parameters (one writer failing), slot 0 unbound first so that the
+				// swap-delete reorders them: which of the two the next Unbind removes is not fixed by the property
+				{bind(0, 7, 120, 0), {K: 1, ID: 5, SSRC: 8, Codec: 110, W: 2, Fail: true}, bind(5, 9, 107, 4), {K: 2, ID: 0}, {K: 2, ID: 5},
+					{K: 3, P: padded}},
 				// same context bound twice, unbound once
 				{bind(0, 1000, 96, 0), bind(0, 1000, 96, 0), {K: 3, P: plain}, {K: 2, ID: 0}, {K: 3, P: plain}},
 			}
